@@ -490,31 +490,112 @@ func (c *Ctx) batchAlignment(prop string, s *Slashing, fhs map[*ssa.Function]boo
 		c.R.Fail(rule, Fn(E)+":lengths", c.Pos(K), "requests and metadata may differ in length when the check loop runs", "len(req) == len(metadata) before the loop", an.PathString(c.Pos, path))
 		return
 	}
-	// states = FHB(ctx, pubKeys)#0
+	// states = FHB(ctx, pubKeys)#0, or states filled by the entry's own loop
 	ex, ok := stRoot.(*ssa.Extract)
 	var fhbCall *ssa.Call
 	if ok && ex.Index == 0 {
 		fhbCall, _ = ex.Tuple.(*ssa.Call)
 	}
-	if fhbCall == nil || fhbCall.Call.StaticCallee() == nil {
-		c.R.Fail(rule, Fn(E)+":states", c.Pos(K), "the states are not the result of the batch fetch helper", "states = fetchAll(pubKeys)", nil)
-		return
-	}
-	FHB := fhbCall.Call.StaticCallee()
-	var pkVal ssa.Value
-	for _, a := range fhbCall.Call.Args {
-		if sl, ok := a.Type().(*types.Slice); ok {
-			if _, ok := sl.Elem().(*types.Slice); ok {
-				pkVal = sliceRootExact(a)
+	var pkMk *ssa.MakeSlice
+	if stMk, ok := stRoot.(*ssa.MakeSlice); ok && fhbCall == nil {
+		// inline form: for i := range metadata { states[i] = fetch(metadata[i].PubKey) }, any error leaves the entry
+		if !lenIs(stMk.Len, metaP) && !lenIs(stMk.Len, reqP) {
+			c.R.Fail(rule, Fn(E)+":states", c.Pos(K), "the states list is not make(len(metadata))", "states := make(len(metadata))", nil)
+			return
+		}
+		if why := c.inlineFetchOK(E, stMk, metaP, reqP, K, fhs); why != "" {
+			c.R.Fail(rule, Fn(E)+":states", c.Pos(K), why, "states[i] = fetch(metadata[i].PubKey) for every i, any error leaves the entry", nil)
+			return
+		}
+		for _, ci := range Calls(E, func(ci ssa.CallInstruction) bool { return shs[ci.Common().StaticCallee()] != nil }) {
+			h := shs[ci.Common().StaticCallee()]
+			if h.Batch {
+				if mk, ok := sliceRootExact(ci.Common().Args[h.PKParam]).(*ssa.MakeSlice); ok {
+					pkMk = mk
+				}
 			}
 		}
+		if pkMk != nil {
+			if !lenIs(pkMk.Len, metaP) || !c.pubKeysFilled(E, pkMk, metaP) {
+				c.R.Fail(rule, Fn(E)+":pubkeys", c.Pos(K), "pubKeys[i] is not metadata[i].PubKey for every i", "for i := range metadata { pubKeys[i] = metadata[i].PubKey }", nil)
+				return
+			}
+		}
+	} else {
+		if fhbCall == nil || fhbCall.Call.StaticCallee() == nil {
+			c.R.Fail(rule, Fn(E)+":states", c.Pos(K), "the states are not the result of the batch fetch helper", "states = fetchAll(pubKeys)", nil)
+			return
+		}
+		FHB := fhbCall.Call.StaticCallee()
+		var pkVal ssa.Value
+		for _, a := range fhbCall.Call.Args {
+			if sl, ok := a.Type().(*types.Slice); ok {
+				if _, ok := sl.Elem().(*types.Slice); ok {
+					pkVal = sliceRootExact(a)
+				}
+			}
+		}
+		var ok bool
+		pkMk, ok = pkVal.(*ssa.MakeSlice)
+		if !ok || !lenIs(pkMk.Len, metaP) {
+			c.R.Fail(rule, Fn(E)+":pubkeys", c.Pos(fhbCall), "the public-key list is not make([][]byte, len(metadata))", "pubKeys := make(len(metadata))", nil)
+			return
+		}
+		// pubKeys[j] = metadata[j].PubKey in a full-range loop; no other store
+		if !c.pubKeysFilled(E, pkMk, metaP) {
+			c.R.Fail(rule, Fn(E)+":pubkeys", c.Pos(fhbCall), "pubKeys[i] is not metadata[i].PubKey for every i", "for i := range metadata { pubKeys[i] = metadata[i].PubKey }", nil)
+			return
+		}
+		// FHB: states[i] = FH(ctx, pubKeys[i])#0 for every i, error -> return
+		if why := c.batchFetchOK(FHB, fhs); why != "" {
+			c.R.Fail(rule, Fn(FHB), c.P.FuncPos(FHB), why, "states[i] = fetch(pubKeys[i]) for every i, any error returned", nil)
+			return
+		}
 	}
-	pkMk, ok := pkVal.(*ssa.MakeSlice)
-	if !ok || !lenIs(pkMk.Len, metaP) {
-		c.R.Fail(rule, Fn(E)+":pubkeys", c.Pos(fhbCall), "the public-key list is not make([][]byte, len(metadata))", "pubKeys := make(len(metadata))", nil)
-		return
+	c.R.OK(rule, Fn(E), c.Pos(K), "for every i: check(metadata[i], req[i], states[i]) with states[i] = fetch(metadata[i].PubKey), verdict stored at res[i]")
+	// recorder: RB(ctx, pubKeys, states) with the same values
+	nrec := 0
+	for _, ci := range Calls(E, func(ci ssa.CallInstruction) bool { return shs[ci.Common().StaticCallee()] != nil }) {
+		h := shs[ci.Common().StaticCallee()]
+		nrec++
+		args := ci.Common().Args
+		if !h.Batch || sliceRootExact(args[h.STParam]) != stRoot || pkMk == nil || sliceRootExact(args[h.PKParam]) != ssa.Value(pkMk) {
+			c.R.Fail(prop+".O8 record.value", Fn(E), c.Pos(ci), "the states recorded are not the checked states under the same public keys", "storeAll(pubKeys, states)", nil)
+		} else {
+			c.R.OK(prop+".O8 record.value", Fn(E), c.Pos(ci), "the checked states are recorded under the same public keys")
+		}
 	}
-	// pubKeys[j] = metadata[j].PubKey in a full-range loop; no other store
+	c.R.Floor(prop+".O8 record.value", "validated recorder calls in "+Fn(E), nrec, 1)
+}
+
+// pubKeysFilled: pubKeys[j] = metadata[j].PubKey in a full-range loop over the metadata, and no other store into the list.
+func (c *Ctx) pubKeysFilled(E *ssa.Function, pkMk *ssa.MakeSlice, metaP ssa.Value) bool {
+	// an early exit of the filling loop is harmless when the list is consumed only through the loop's regular exit
+	completes := func(l *Loop) bool {
+		if len(l.BreakEdges()) == 0 {
+			return true
+		}
+		hdr, exitB := l.Header, l.Exit
+		for _, r := range *pkMk.Referrers() {
+			ci, ok := r.(ssa.CallInstruction)
+			if !ok {
+				if sl, isSl := r.(*ssa.Slice); isSl {
+					_ = sl
+					return false
+				}
+				continue
+			}
+			if _, isB := ci.Common().Value.(*ssa.Builtin); isB {
+				continue
+			}
+			target := ci.(ssa.Instruction)
+			if x, _ := an.Cut(an.CutQuery{From: an.Entry(E), Target: func(i ssa.Instruction) bool { return i == target },
+				AcceptEdge: func(b *ssa.BasicBlock, i int, a *an.Atom) bool { return b == hdr && b.Succs[i] == exitB }}); x != nil {
+				return false
+			}
+		}
+		return true
+	}
 	okFill := false
 	nStores := 0
 	for _, b := range E.Blocks {
@@ -538,35 +619,81 @@ func (c *Ctx) batchAlignment(prop string, s *Slashing, fhs map[*ssa.Function]boo
 					continue
 				}
 				r, idx, ok := elemLoad(base)
-				if ok && r == metaP && idx == l.Idx && !l.IterationSkips(func(i ssa.Instruction) bool { return i == ssa.Instruction(st) }) && len(l.BreakEdges()) == 0 {
+				if ok && r == metaP && idx == l.Idx && !l.IterationSkips(func(i ssa.Instruction) bool { return i == ssa.Instruction(st) }) && completes(l) {
 					okFill = true
 				}
 			}
 		}
 	}
-	if !okFill || nStores != 1 {
-		c.R.Fail(rule, Fn(E)+":pubkeys", c.Pos(fhbCall), "pubKeys[i] is not metadata[i].PubKey for every i", "for i := range metadata { pubKeys[i] = metadata[i].PubKey }", nil)
-		return
-	}
-	// FHB: states[i] = FH(ctx, pubKeys[i])#0 for every i, error -> return
-	if why := c.batchFetchOK(FHB, fhs); why != "" {
-		c.R.Fail(rule, Fn(FHB), c.P.FuncPos(FHB), why, "states[i] = fetch(pubKeys[i]) for every i, any error returned", nil)
-		return
-	}
-	c.R.OK(rule, Fn(E), c.Pos(K), "for every i: check(metadata[i], req[i], states[i]) with states[i] = fetch(metadata[i].PubKey), verdict stored at res[i]")
-	// recorder: RB(ctx, pubKeys, states) with the same values
-	nrec := 0
-	for _, ci := range Calls(E, func(ci ssa.CallInstruction) bool { return shs[ci.Common().StaticCallee()] != nil }) {
-		h := shs[ci.Common().StaticCallee()]
-		nrec++
-		args := ci.Common().Args
-		if !h.Batch || sliceRootExact(args[h.STParam]) != stRoot || sliceRootExact(args[h.PKParam]) != ssa.Value(pkMk) {
-			c.R.Fail(prop+".O8 record.value", Fn(E), c.Pos(ci), "the states recorded are not the checked states under the same public keys", "storeAll(pubKeys, states)", nil)
-		} else {
-			c.R.OK(prop+".O8 record.value", Fn(E), c.Pos(ci), "the checked states are recorded under the same public keys")
+	return okFill && nStores == 1
+}
+
+// inlineFetchOK validates a batch entry that fills its states list itself: one full-range loop over the
+// metadata stores fetch(metadata[i].PubKey)#0 at states[i], a failed fetch never reaches the next iteration,
+// and the check call K is reached only through the loop's exit.
+func (c *Ctx) inlineFetchOK(E *ssa.Function, states *ssa.MakeSlice, metaP, reqP ssa.Value, K ssa.CallInstruction, fhs map[*ssa.Function]bool) string {
+	var stores []*ssa.Store
+	for _, b := range E.Blocks {
+		for _, ins := range b.Instrs {
+			if st, ok := ins.(*ssa.Store); ok {
+				if ia, ok := st.Addr.(*ssa.IndexAddr); ok && sliceRoot(ia.X) == ssa.Value(states) {
+					stores = append(stores, st)
+				}
+			}
 		}
 	}
-	c.R.Floor(prop+".O8 record.value", "validated recorder calls in "+Fn(E), nrec, 1)
+	if len(stores) != 1 {
+		return fmt.Sprintf("the states list is written at %d places, not one", len(stores))
+	}
+	st := stores[0]
+	ia := st.Addr.(*ssa.IndexAddr)
+	ex, ok := st.Val.(*ssa.Extract)
+	if !ok || ex.Index != 0 {
+		return "states[i] is not the result of the fetch helper"
+	}
+	fhCall, ok := ex.Tuple.(*ssa.Call)
+	if !ok || !fhs[fhCall.Call.StaticCallee()] {
+		return "states[i] is not the result of the fetch helper"
+	}
+	for _, l := range FindLoops(E) {
+		if l.Idx != ia.Index || !l.FullRange || (l.BoundLen != metaP && l.BoundLen != reqP && l.BoundLen != ssa.Value(states)) {
+			continue
+		}
+		if !l.Body[fhCall.Block()] {
+			continue
+		}
+		okArg := false
+		for _, a := range fhCall.Call.Args {
+			if owner, f, base := an.FieldOf(a); owner != nil && f == "PubKey" {
+				if r, idx, ok := elemLoad(base); ok && r == metaP && idx == l.Idx {
+					okArg = true
+				}
+			}
+		}
+		if !okArg {
+			return "the state stored at states[i] is not fetched under metadata[i].PubKey"
+		}
+		if l.IterationSkips(func(i ssa.Instruction) bool { return i == ssa.Instruction(st) }) {
+			return "an iteration can skip the fetch"
+		}
+		errs := map[ssa.Value]bool{}
+		for _, e := range errValuesOfCall(fhCall) {
+			errs[e] = true
+		}
+		hdr := l.Header
+		if x, _ := an.Cut(an.CutQuery{From: an.After(fhCall), Target: func(i ssa.Instruction) bool { return i == hdr.Instrs[0] },
+			AcceptEdge: func(b *ssa.BasicBlock, i int, a *an.Atom) bool { return errNilAtom(a, errs) }}); x != nil {
+			return "a failed fetch does not stop the batch"
+		}
+		// early exits (the error path) are covered by the next test: the checks are reached through the regular exit only
+		exitB := l.Exit
+		if x, _ := an.Cut(an.CutQuery{From: an.Entry(E), Target: func(i ssa.Instruction) bool { return i == K.(ssa.Instruction) },
+			AcceptEdge: func(b *ssa.BasicBlock, i int, a *an.Atom) bool { return b == hdr && b.Succs[i] == exitB }}); x != nil {
+			return "the checks can run before every state was fetched"
+		}
+		return ""
+	}
+	return "no full-range loop over the metadata fetching every state"
 }
 
 // batchFetchOK validates the batch fetch helper.
